@@ -12,6 +12,22 @@ Lemma statics_classified_l :
   forallb (fun s => let '(f, _, n) := s in classified f n) statics = true.
 Proof. vm_compute. reflexivity. Qed.
 
+(* the per-call state that is reset explicitly (the multipass variables): the reset clears the whole array,
+   it happens before the first loop of each of the six stage functions, and the variables are only touched
+   by the pass interpreters, which are reached from those functions only *)
+Definition stage_functions : list (string * string) :=
+  [("lou_translateString.c", "makeCorrections"); ("lou_translateString.c", "translateString"); ("lou_translateString.c", "translatePass");
+   ("lou_backTranslateString.c", "makeCorrections"); ("lou_backTranslateString.c", "backTranslateString"); ("lou_backTranslateString.c", "translatePass")]%string.
+
+Definition resets_first (f : string * string) : bool :=
+  existsb (fun r => let '(a, b, early) := r in String.eqb a (fst f) && String.eqb b (snd f) && early) passvars_resetters.
+
+Lemma passvars_reset_l :
+  passvars_reset_bytes = (passvars_elem_bytes * passvars_count)%Z /\
+  forallb resets_first stage_functions = true /\
+  forallb (fun u => existsb (String.eqb (snd u)) ["passDoTest"; "passDoAction"; "doPassSearch"; "back_passDoTest"; "back_passDoAction"]%string) passvars_users = true.
+Proof. vm_compute. repeat split; reflexivity. Qed.
+
 Lemma free_covers_l :
   forallb (fun v => existsb (String.eqb v) free_resets) must_be_reset_by_free = true.
 Proof. vm_compute. reflexivity. Qed.
